@@ -1042,11 +1042,55 @@ func e1ConcurrentReadersCase(seed uint64, n int) Case {
 				}
 			}()
 		}
+		// a SECOND cache with its own writer works at the same time: what an operation
+		// returns are the events of that operation on that cache, whatever other caches
+		// of the process are doing (C02: events are an exact delta)
+		ctx2, cancel2 := context.WithCancel(context.Background())
+		c2 := kcache.VerifNewCache(ctx2, kit.NullLog{}, nil, kit.TNull().Build())
+		defer func() { cancel2(); <-c2.Done() }()
+		var foreign []string
+		wg.Add(1)
+		go func() {
+			defer wg.Done()
+			for i := 1; !stop.Load(); i++ {
+				nm := fmt.Sprintf("o%d", i%4)
+				o := kit.Pod("other", nm, strconv.Itoa(i), nil)
+				typ := kcache.EventTypeUpdate
+				if i <= 4 {
+					typ = kcache.EventTypeCreate
+				}
+				evts, err := c2.Update(kcache.NewEvent(typ, o))
+				if err != nil {
+					return
+				}
+				nreads.Add(1)
+				if len(evts) != 1 || evts[0].Resource().GetNamespace() != "other" || evts[0].Resource().GetName() != nm || evts[0].Resource().GetResourceVersion() != strconv.Itoa(i) {
+					bmu.Lock()
+					if len(foreign) < 3 {
+						foreign = append(foreign, fmt.Sprintf("second cache: update of other/%s@%d returned %s", nm, i, evSummary(evts)))
+					}
+					bmu.Unlock()
+				}
+			}
+		}()
+		checkOwn := func(i int, what string, evts []kcache.Event, want int) {
+			r.Add("batches-checked-with-another-cache-emitting", 1)
+			bad := want >= 0 && len(evts) != want
+			for _, e := range evts {
+				if e.Resource().GetNamespace() != "ns" {
+					bad = true
+				}
+			}
+			if bad {
+				r.V("C02", "replay-mismatch", "operation #%d (%s) on one cache, while another cache of the process was being updated, returned %s (%d event(s) expected, all about namespace ns)", i, what, evSummary(evts), want)
+			}
+		}
 		cur := kit.Snap{}
 		ver := 0
 		for i := 1; i <= nops && !r.Failed(); i++ {
 			next := cur.Clone()
 			var err error
+			var evts []kcache.Event
 			// the state after the operation is published BEFORE it is started (a reader
 			// may already see it while the call is in progress)
 			switch x := rng.Intn(10); {
@@ -1068,7 +1112,15 @@ func e1ConcurrentReadersCase(seed uint64, n int) Case {
 				if _, has := cur["ns/"+nm]; !has {
 					typ = kcache.EventTypeCreate
 				}
-				_, err = c.Update(kcache.NewEvent(typ, o))
+				evts, err = c.Update(kcache.NewEvent(typ, o))
+				if err == nil {
+					_, had := cur["ns/"+nm]
+					want := 1
+					if lab == "z" && !had {
+						want = 0
+					}
+					checkOwn(i, "update "+nm+"~"+lab, evts, want)
+				}
 			case x < 8:
 				ver++
 				nm := names[rng.Intn(len(names))]
@@ -1077,7 +1129,14 @@ func e1ConcurrentReadersCase(seed uint64, n int) Case {
 				states = append(states, next)
 				smu.Unlock()
 				started.Store(int64(i))
-				_, err = c.Update(kcache.NewEvent(kcache.EventTypeDelete, kit.Pod("ns", nm, strconv.Itoa(ver), nil)))
+				evts, err = c.Update(kcache.NewEvent(kcache.EventTypeDelete, kit.Pod("ns", nm, strconv.Itoa(ver), nil)))
+				if err == nil {
+					want := 0
+					if _, had := cur["ns/"+nm]; had {
+						want = 1
+					}
+					checkOwn(i, "delete "+nm, evts, want)
+				}
 			default:
 				var l []metav1.Object
 				next = kit.Snap{}
@@ -1121,6 +1180,9 @@ func e1ConcurrentReadersCase(seed uint64, n int) Case {
 		wg.Wait()
 		for _, b := range bads {
 			r.V("C01", "content-mismatch", "%s", b)
+		}
+		for _, b := range foreign {
+			r.V("C02", "replay-mismatch", "%s", b)
 		}
 		r.Add("concurrent-reads", nreads.Load())
 		r.Add("concurrent-reader-cases", 1)
